@@ -11,7 +11,7 @@
 (* enabled clause adds <<ti, clause, index>> to `bad`, and Verdict fails in the last state.          *)
 (*                                                                                                   *)
 (* header:  [id, dt, kind, rows, dur, lsrc, ldst, lpar, ltimed, lflush, units, tscale]              *)
-(* step:    [ti, pv, st, fl, nx, ca, outc, nonfinite, first]                                         *)
+(* step:    [ti, pv, st, fl, nx, ca, outc, nonfinite, first, init, dbtot, dbhas]                                         *)
 (***************************************************************************************************)
 EXTENDS Big, TLC, Json, IOUtils, FiniteSets, FiniteSetsExt
 Trace == ndJsonDeserialize(IOEnv.TRACE_FILE)
@@ -132,6 +132,11 @@ RowsOK(c) == LET n == H.rows[c]  D == H.dur[c]  tol == Tol(D, K1e9, 4) IN
              /\ SLe(D, SAdd(SMulInt(H.dt, n), tol))
              /\ (n > 1 => SLt(SSub(SMulInt(H.dt, n - 1), tol), D))
 Rows(e) == IF e.first THEN {<<e.ti, "Rows", c>> : c \in {c \in 1..NC : H.kind[c] = "timed" /\ (Len(e.st[c]) # H.rows[c] \/ ~RowsOK(c))}} ELSE {}
+\* a timed compartment initialised from the databook spreads its people uniformly over its n elapsed-time bins: n x (each bin) = the databook total
+\* (dbtot / dbhas: per compartment, given by the harness for databook-initialised runs only)
+InitSpread(e) == IF e.dbhas = <<>> \/ ~e.first THEN {} ELSE
+      {<<e.ti, "InitSpread", c>> : c \in {c \in 1..NC : H.kind[c] = "timed" /\ e.dbhas[c] /\
+            \E r \in 1..Len(e.st[c]) : ~SClose(SMulInt(e.st[c][r], Len(e.st[c])), e.dbtot[c], K1e9, 64 * Len(e.st[c]))}}
 \* shift: next row r = row r+1 - its outflow + duration-preserving arrivals; other arrivals into the last row
 TimedIn(e, c, r) == LET n == Len(e.st[c])  tin == {l \in Inl(c) : H.ltimed[l]} IN
       BSum(tin, [l \in tin |-> SAdd(RowAt(e.fl[l], r), IF r = n /\ Len(e.fl[l]) > n THEN SSumSeq(SubSeq(e.fl[l], n+1, Len(e.fl[l]))) ELSE SZero)])
@@ -177,7 +182,7 @@ Failing(e) ==
   \cup (IF on("Ratio") THEN Ratio(e) ELSE {}) \cup (IF on("NegZero") THEN NegZero(e) ELSE {})
   \cup (IF on("ConvertRel") THEN ConvertRel(e) ELSE {}) \cup (IF on("ResolveRel") THEN ResolveRel(e) ELSE {})
   \cup (IF on("JEmpty") THEN JEmpty(e) ELSE {}) \cup (IF on("JSplit") THEN JSplit(e) ELSE {}) \cup (IF on("FlushConserves") THEN FlushConserves(e) ELSE {})
-  \cup (IF on("Rows") THEN Rows(e) ELSE {}) \cup (IF on("ShiftRel") THEN ShiftRel(e) ELSE {}) \cup (IF on("FlushAll") THEN FlushAll(e) ELSE {})
+  \cup (IF on("InitSpread") THEN InitSpread(e) ELSE {}) \cup (IF on("Rows") THEN Rows(e) ELSE {}) \cup (IF on("ShiftRel") THEN ShiftRel(e) ELSE {}) \cup (IF on("FlushAll") THEN FlushAll(e) ELSE {})
 
 Init == i = 2 /\ bad = {} /\ win = [g \in Groups |-> <<>>] /\ age = 0 /\ ini = <<>>
 Next == /\ i <= Len(Trace)
